@@ -222,7 +222,14 @@ func (c C08Case) valid() c08Valid {
 			}
 			return &rn.Tag{Type: rn.LongArray, Longs: make([]int64, n)}
 		}
-		hm := &rn.Tag{Type: rn.Compound, K: [][]byte{[]byte("MOTION_BLOCKING"), []byte("WORLD_SURFACE")}, V: []*rn.Tag{mk(c.HM[0]), mk(c.HM[1])}}
+		hm := &rn.Tag{Type: rn.Compound}
+		for i, k := range []string{"MOTION_BLOCKING", "WORLD_SURFACE"} {
+			if c.HM[i] == -9999 {
+				continue // key absent
+			}
+			hm.K = append(hm.K, []byte(k))
+			hm.V = append(hm.V, mk(c.HM[i]))
+		}
 		doc, _ := rn.Encode(hm, true, nil)
 		v.nbtOff = 0
 		v.w.Bytes(doc)
@@ -572,6 +579,19 @@ func (c C08Case) inputs(v c08Valid, f func(in c08Input) bool) {
 			}
 		}
 	}
+	if c.Dec == "unpack" && c.Thr >= 0 {
+		// compressed bodies whose packet id is a padded VarInt, declared sizes around the id's length
+		for _, pad := range [][]byte{{0x80, 0x00}, {0x80, 0x80, 0x00}, {0xff, 0x80, 0x80, 0x80, 0x00}} {
+			for d := int32(1); d <= int32(len(pad))+1; d++ {
+				if int(d) < c.Thr {
+					continue
+				}
+				if !f(c08Input{b: frame.CompressedBody(append(append([]byte{}, pad...), c.Frame.payload()...), d), class: "crafted:padded-id"}) {
+					return
+				}
+			}
+		}
+	}
 	for _, m := range c.Extra {
 		in := m.Apply(valid)
 		if v.hasBE && v.nbtOff != 0 {
@@ -674,7 +694,7 @@ func genC08(t *rapid.T) C08Case {
 		c.Secs = rapid.IntRange(1, 4).Draw(t, "secs")
 		c.NBE = rapid.IntRange(0, 2).Draw(t, "nbe")
 		if c.Dec == "chunk" && rapid.IntRange(0, 2).Draw(t, "hmbad") == 1 {
-			c.HM = [2]int{rapid.SampledFrom([]int{0, 1, -1, -1000, 3}).Draw(t, "hm0"), rapid.SampledFrom([]int{0, 1, -1, -1000, 7}).Draw(t, "hm1")}
+			c.HM = [2]int{rapid.SampledFrom([]int{0, 1, -1, -1000, 3, -9999}).Draw(t, "hm0"), rapid.SampledFrom([]int{0, 1, -1, -1000, 7, -9999}).Draw(t, "hm1")}
 		}
 	case "chat-nbt", "chat-json", "chat-jsonraw", "chat-type":
 		c.Text = rapid.SampledFrom([]string{"", "hello", "§cred§r", "%s %1$s %%", "a\"b", "é世"}).Draw(t, "text")
